@@ -10,6 +10,7 @@ pub mod chmux_block;
 pub mod chmux_data;
 pub mod chmux_life;
 pub mod chmux_misc;
+pub mod chmux_peer;
 
 pub type MuxResult = Result<(), ChMuxError<io::Error, io::Error>>;
 
